@@ -46,6 +46,7 @@ def run(ck, fb):
     r18i(ck, fb)
     r18j(ck, fb)
     r18k(ck, fb)
+    r18l(ck, fb)
 
 
 def find_generic(fb, suffix):
@@ -617,3 +618,60 @@ def r18k(ck, fb, R='R18k'):
                        'default namespace (id "") vanishes from a blacklist, and the user may read and change it'
                        % (fb.root_of(b.name), f, sorted(set(x.split('::')[-1] for x in drops + trims))), 'iter/map/collect only')
     ck.floor(R, 'privilege lists built in the user module', n, 4)
+
+
+def r18l(ck, fb, R='R18l'):
+    ck.rule(R, 'the namespace that is checked is the namespace that is used: in every console handler that tests the privilege, each request input '
+               'that names a namespace (a tenant / namespace field of a parameter, form or query struct) and reaches a data sink of the handler is also an '
+               'input of the checked value - backward slice of the sink operands and of the check operand to the handler\'s inputs, every definition '
+               'followed. A handler that checks the header tenant and then lets a form field replace it writes into a namespace nobody checked')
+    from rn.flow import roots
+    try:
+        rows = routes.routes_of(fb, fb.get('rnacos::web_config::console_config'))
+    except Exception as e:
+        ck.bad(R, 'route-dsl', '-', 'console route table cannot be extracted: %s' % e)
+        return
+    cg = c17.plain_cg(fb)
+    NS = re.compile(r'tenant|namespace', re.I)
+
+    def nsish(leaf):
+        return leaf[0] == 'arg' and any(NS.search(str(f)) for f in leaf[2])
+
+    def norm(leaf):
+        # newtype / tuple positions (web::Json<T>.0, Text<T>.0) are not part of the name of an input; the first element is the upvar of the handler
+        if leaf[0] != 'arg':
+            return leaf
+        fs = leaf[2]
+        return ('arg', leaf[1], tuple(fs[:1]) + tuple(f for f in fs[1:] if not str(f).isdigit()))
+    n = 0
+    for h in sorted(set(r.handler for r in rows if '/api/' in r.path)):
+        if h not in fb.bodies:
+            continue
+        m = fb.main(h)
+        checks = m.calls(CHECK_RX)
+        if not checks:
+            continue
+        sinks = sink_sites(fb, m, cg)
+        if not sinks:
+            continue
+        n += 1
+        ck.analysed(m)
+        C = set()
+        for s0 in checks:
+            if len(s0.args) > 1:
+                C |= {norm(x) for x in roots(m, s0.args[1])}
+        extra = {}
+        for (s0, what) in sinks:
+            for a in s0.args:
+                for leaf in {norm(x) for x in roots(m, a)}:
+                    if nsish(leaf) and leaf not in C:
+                        extra.setdefault(leaf, (s0, what))
+        if extra:
+            leaf, (s0, what) = sorted(extra.items(), key=str)[0]
+            ck.bad(R, '%s:checked-is-used' % h, s0.where(),
+                   'handler %s checks the privilege on a value built from %s, but %s also receives the request input %s, which the check never saw: a '
+                   'restricted user names an allowed namespace where it is checked and another one where it is used'
+                   % (h, sorted(str(c[2]) for c in C if c[0] == 'arg'), what, '.'.join(str(x) for x in leaf[2])))
+        else:
+            ck.ok(R, '%s:checked-is-used' % h, m.where(), 'every namespace input that reaches a sink was checked')
+    ck.floor(R, 'console handlers with a privilege check and a data sink', n, 20)
